@@ -24,6 +24,7 @@ func ruleC01(c *Check) {
 	c.newBatchRules("C01", map[string]bool{"obligation-without-credit": true, "credit-without-obligation": true, "list-vs-amount": true,
 		"supermode-charged": true, "issue-after-pause": true, "payfail-no-pause": true, "skip-with-charge": true})
 	c.pricingIdentity("C01.4")
+	c.filterTotal("C01.3")
 	c.respondRules("C01")
 	c.expiredRequestRules("C01")
 	c.earnRules("C01")
